@@ -89,6 +89,8 @@ func runC02(c *Ctx) {
 	c.Min("use-guard", len(tab))
 	c02MapsWritten(c, ge)
 	c02SpendsRecorded(c, ge)
+	// the spent set is per MidState: both transaction versions of a block must go through the same one
+	c09TxnByTxn(c, ge)
 	c02LeafFlags(c, ge)
 }
 
